@@ -358,7 +358,7 @@ def SpecDispLoop (fuel : Nat) : Prop :=
     G T nroot st → BL T st.latex.length buf → start < st.latex.length → OL T st.latex.length out →
     (endFuncNames T).contains envName = false →
     Post (displayLoop T fuel buf start envName first next out st) (fun r st' =>
-      Good T nroot st st' ∧ OL T st.latex.length r.1 ∧ BL T st.latex.length r.2)
+      Good T nroot st st' ∧ OL T st.latex.length r.1 ∧ BL T st.latex.length r.2.1 ∧ OL T st.latex.length r.2.2)
 
 def SpecDisplay (fuel : Nat) : Prop :=
   ∀ (buf : Buf) (tok : Tok) (envName : Str) (remove : Bool) (st : PState),
